@@ -3,6 +3,7 @@ Realign a GAF file using wavefront alignment algorithm (WFA).
 """
 
 import logging
+import os
 import sys
 import pysam
 import queue
@@ -169,6 +170,9 @@ def realign_gaf(gaf, graph, fasta, output, cores=1):
 
     seq_batch = []
     batch_size = 1000
+    if os.environ.get("GAFTOOLS_VERIF") == "1":
+        # verification hook: lets schedule exploration use many tiny batches
+        batch_size = int(os.environ.get("GAFTOOLS_VERIF_REALIGN_BATCH", batch_size))
     gaf_file = GAF(gaf)
     priority_counter = 0
     for line in gaf_file.read_file():
